@@ -555,6 +555,25 @@ class Tdf:
 
         comment = comment if comment is not None else old_entry.comment
 
+        # make sure the add can't fail once the old block is gone: the new block
+        # and comment must be encodable and, with the old entry removed, every
+        # slot after the first unused one must be unused
+        newBlock._write(BytesIO())
+        BTSString.write(256, comment)
+        remaining = [entry for entry in self.entries if entry is not old_entry]
+        first_unused = next(
+            (
+                n
+                for n, entry in enumerate(remaining)
+                if entry.type == BlockType.unusedSlot
+            ),
+            len(remaining),
+        )
+        if any(
+            entry.type != BlockType.unusedSlot for entry in remaining[first_unused:]
+        ):
+            raise IOError("All unused slots must be at the end of the file")
+
         self.remove_block(newBlock.type)
         self.add_block(newBlock, comment)
 
